@@ -101,6 +101,32 @@ VoidNames == {n_area, n_base, n_basefont, n_bgsound, n_br, n_col, n_embed, n_hr,
 HtmlNs == "http://www.w3.org/1999/xhtml"
 ContentOk(t) == IF t.ns = HtmlNs THEN t.chc = (t.name \notin VoidNames) ELSE t.chc = ~t.sc
 
+\* ---- C16: reads after set_attribute / remove_attribute / set_tag_name reflect those edits -------------
+\* The documented attribute-list model: names compare ASCII case-insensitively; set_attribute replaces the
+\* value of the existing attribute or appends a new (lower-cased) one; remove_attribute removes it;
+\* set_tag_name changes both spellings.  A rejected call (ok = FALSE) leaves the element unchanged.
+RECURSIVE FirstNamed(_, _, _)
+FirstNamed(attrs, lname, i) == IF i > Len(attrs) THEN 0 ELSE IF attrs[i].n = lname THEN i ELSE FirstNamed(attrs, lname, i + 1)
+DropAt(sq, i) == SubSeq(sq, 1, i - 1) \o SubSeq(sq, i + 1, Len(sq))
+ApplyEdit(st, ed, rmAll) ==
+  LET ln == LowerSeq(ed.n)  idx == FirstNamed(st.attrs, ln, 1) IN
+  IF ~ed.ok THEN st
+  ELSE CASE ed.op = "set_attr" -> IF idx # 0 THEN [st EXCEPT !.attrs[idx] = [n |-> ln, v |-> ed.v]]
+                                  ELSE [st EXCEPT !.attrs = Append(@, [n |-> ln, v |-> ed.v])]
+         [] ed.op = "rm_attr"  -> IF idx = 0 THEN st
+                                  ELSE IF rmAll THEN [st EXCEPT !.attrs = SelectSeq(@, LAMBDA a : a.n # ln)]
+                                  ELSE [st EXCEPT !.attrs = DropAt(@, idx)]
+         [] ed.op = "set_name" -> [st EXCEPT !.name = ln, !.nameraw = ed.n]
+RECURSIVE ApplyEdits(_, _, _, _)
+ApplyEdits(st, eds, i, rmAll) == IF i > Len(eds) THEN st ELSE ApplyEdits(ApplyEdit(st, eds[i], rmAll), eds, i + 1, rmAll)
+NV(attrs) == [i \in 1..Len(attrs) |-> [n |-> attrs[i].n, v |-> attrs[i].v]]
+EditsOk(t) ==
+  t.edits = <<>> \/
+  LET st0 == [name |-> t.name, nameraw |-> t.nameraw, attrs |-> NV(t.attrs)]
+      post == [name |-> t.post.name, nameraw |-> t.post.nameraw, attrs |-> NV(t.post.attrs)]
+  IN \* with duplicate attributes in the source, removing "the" attribute may mean the first or all of them
+     post = ApplyEdits(st0, t.edits, 1, FALSE) \/ post = ApplyEdits(st0, t.edits, 1, TRUE)
+
 \* ---- C14 (c): order ------------------------------------------------------------------------------
 \* (one end tag may close several elements: each of their end-tag handlers sees the same range)
 SameEndTag(a, b) == a.k = "et" /\ b.k = "et" /\ a.s = b.s /\ a.e = b.e
@@ -144,6 +170,19 @@ StreamOk(r) ==
   IF ref.err # "" THEN r.res = "err:ambiguity"
   ELSE r.res = "ok" /\ NoEt(ObsShape(r)) = NoEt(RefShape(ref.toks))
 
+\* ---- C16: namespace_uri agrees with the foreign-content context ----------------------------------------
+NsUri(ns) == CASE ns = "svg" -> "http://www.w3.org/2000/svg" [] ns = "mathml" -> "http://www.w3.org/1998/Math/MathML"
+               [] OTHER -> "http://www.w3.org/1999/xhtml"
+\* "ok" | "bad" | "S16" (explained by the simulator's after-the-tag namespace)
+NsVerdict(r) ==
+  LET ref == Tokenize(r.input, "sim", FALSE).toks
+      Bad(t, useL1) == \E j \in 1..Len(ref) : ref[j].k = "st" /\ ref[j].s = t.s /\ ref[j].e = t.e
+                                              /\ t.ns # NsUri(IF useL1 THEN ref[j].ns1 ELSE ref[j].ns)
+      sts == {i \in 1..Len(r.toks) : r.toks[i].k = "st"}
+  IN IF \A i \in sts : ~Bad(r.toks[i], FALSE) THEN "ok"
+     ELSE IF \A i \in sts : ~Bad(r.toks[i], TRUE) THEN "S16"
+     ELSE "bad"
+
 \* ---- verdict ---------------------------------------------------------------------------------------
 Verdict(r) ==
   IF On(r, "C14") /\ r.res = "ok" /\ ~Monotone(r.toks) THEN "C14: ranges overlap or go backwards"
@@ -157,8 +196,12 @@ Verdict(r) ==
        THEN "C16: name / attribute list / self-closing flag differ from the start tag's source"
   ELSE IF On(r, "C16") /\ \E i \in 1..Len(r.toks) : r.toks[i].k = "st" /\ \E j \in 1..Len(r.toks[i].q) : ~LookupOk(r.toks[i], r.toks[i].q[j])
        THEN "C16: get_attribute/has_attribute is not a case-insensitive first-match lookup"
+  ELSE IF On(r, "C16") /\ \E i \in 1..Len(r.toks) : r.toks[i].k = "st" /\ ~EditsOk(r.toks[i])
+       THEN "C16: reads after set_attribute/remove_attribute/set_tag_name do not reflect the edits"
   ELSE IF On(r, "C16") /\ \E i \in 1..Len(r.toks) : r.toks[i].k = "st" /\ ~ContentOk(r.toks[i])
        THEN "C16: can_have_content disagrees with the void list / self-closing syntax"
+  ELSE IF On(r, "C16") /\ r.res = "ok" /\ r.fb = "sim" /\ NsVerdict(r) # "ok"
+       THEN "C16: namespace_uri disagrees with the foreign-content context" \o (IF NsVerdict(r) = "S16" THEN " [explained-by:S16]" ELSE "")
   ELSE IF On(r, "C03") /\ ~StreamOk(r) THEN "C03: token stream differs from the reference tokenization"
   ELSE "ok"
 
